@@ -683,6 +683,15 @@ theorem src_reverse_iter_lines_text_preseek (c : List Nat) (bs pos lfuel : Nat) 
   rw [src_reverse_iter_lines_text_eq_model c bs pos lfuel true hbs (by simpa using hf), decAll_ok]
   simp only [reverseIterLinesText, reverseIterLines, revLoop, if_true, List.mapM_map, Function.comp_def, id]
 
+/-- text mode with `preseek=False` and the file position at `pos` inside the file: the lines of `reverseIterLinesFrom`,
+    each decoded -/
+theorem src_reverse_iter_lines_text_from (c : List Nat) (bs pos lfuel : Nat) (hbs : 1 ≤ bs) (hp : pos ≤ c.length)
+    (hf : pos + 1 ≤ lfuel) :
+    reverse_iter_lines_text (β := Nat) lfuel c (pos : Int) (bs : Int) false
+      = decAll (reverseIterLinesFrom c pos bs) (.ok []) := by
+  rw [src_reverse_iter_lines_text_eq_model c bs pos lfuel false hbs (by simpa using hf)]
+  simp [reverseIterLinesFrom, revLoop, Nat.min_eq_left hp]
+
 /-- through `C19.reverse_lines_text`: on a file whose content is the UTF-8 encoding of the text `t`, text mode yields
     exactly the lines of `t` (split at LF, CR, CR LF only; a final empty line when `t` ends with LF), last to first, for
     every block size - and never raises -/
@@ -803,6 +812,20 @@ theorem nextModel_rest {α : Type} (parse : List Nat → Except PyExc α) (ignor
       cases r with
       | error e => simp at h
       | ok w => simp at h; obtain ⟨rfl, rfl⟩ := h; simp
+
+/-- a `reverse_iter_lines`-based reader — `JSONLIterator(f, reverse=True)` on a binary file with content `c`: its line iterator
+    is `reverse_iter_lines(f, blocksize, preseek=False)` with the file position at the end (where `_init_rel_seek` puts it
+    for `rel_seek = 1.0`).  The two generated definitions compose: the first returns the lines `ls` = the model's
+    `reverseIterLines c bs`, and `next()` over them is `nextModel` on those lines — so draining `next()` gives
+    `outcomes … (reverseIterLines c bs)` (`nextModel_head` / `nextModel_rest`), the sequence `jsonlReverse` consumes -/
+theorem src_jsonl_reverse_reader {α : Type} [Inhabited α] (parse : List Nat → Except PyExc α) (ignore : Bool)
+    (c : List Nat) (bs lf1 lf2 : Nat) (hbs : 1 ≤ bs) (h1 : c.length + 1 ≤ lf1)
+    (h2 : (reverseIterLines c bs).length + 1 ≤ lf2) :
+    ∃ ls, reverse_iter_lines (β := Nat) lf1 c (c.length : Int) (bs : Int) false = .ok ls ∧
+      @JSONLIterator_next Nat α _ _ _ _ ⟨parse⟩ lf2 ls ignore = nextModel parse ignore (reverseIterLines c bs) := by
+  refine ⟨reverseIterLines c bs, ?_, src_jsonl_next_eq_model parse ignore _ lf2 h2⟩
+  rw [src_reverse_iter_lines_from c bs c.length lf1 hbs (Nat.le_refl _) h1]
+  simp [reverseIterLinesFrom, reverseIterLines]
 
 example : (match @JSONLIterator_next Nat Nat _ _ _ _ ⟨fun b => if b = [120] then .error PyExc.ValueError else .ok b.length⟩
       9 [[32, 10], [120], [9, 49, 50, 13, 10], [51]] true with
